@@ -175,8 +175,12 @@ def run_harness(scenarios, tag, timeout=900):
             f.write(json.dumps(s) + "\n")
     if os.path.exists(of):
         os.remove(of)
-    ov = go_overlay({"internal/index/manager/zz_verif_c10_test.go": HARNESS}, "c10_" + hashlib.sha256(REPO.encode()).hexdigest()[:8])
-    rc, out, dt = go_test(PKG, ov, "^TestVerifC10$", {"VERIF_CASES": cf, "VERIF_OUT": of}, timeout=timeout)
+    ov = go_overlay({"internal/index/manager/zz_verif_c10_test.go": HARNESS}, "c10_%d" % os.getpid())   # private overlay file
+    try:
+        rc, out, dt = go_test(PKG, ov, "^TestVerifC10$", {"VERIF_CASES": cf, "VERIF_OUT": of}, timeout=timeout)
+    finally:
+        if os.path.exists(ov):
+            os.remove(ov)
     note = "" if rc == 0 else "go harness rc=%d: %s" % (rc, out[-1500:])
     traces = parse_out(of)
     if private:
@@ -769,9 +773,22 @@ def model_exe():
     return build_model("C10", "ExtractC10.v", os.path.join(ROOT, "ocaml/c10"), ["theories/Indexes.v"])[0]
 
 
+def setup():
+    """Setup hook (bin/check --setup): extract + build the model driver, compile the harness test binary once so that
+    the first check finds a warm Go build cache. main_for() calls model_exe() itself, so the check also works without it."""
+    exe = model_exe()
+    ov = go_overlay({"internal/index/manager/zz_verif_c10_test.go": HARNESS}, "c10_%d" % os.getpid())
+    try:
+        go_test(PKG, ov, "^$", {}, timeout=600)
+    finally:
+        if os.path.exists(ov):
+            os.remove(ov)
+    return exe
+
+
 def main_for(prop, tier, seed, replay=None):
     t0 = time.time()
-    proof = Proof(prop)
+    proof = Proof(prop, tier=tier)
     exe = model_exe()
     oracle = oracle_c10 if prop == "C10" else oracle_c13
     known, fixed = known_findings(prop)
